@@ -1,0 +1,36 @@
+//go:build verif
+
+package decoder
+
+import (
+	"io"
+
+	"github.com/muktihari/fit/proto"
+)
+
+// Verification hooks (build tag "verif" only): expose unexported cores so that an external
+// harness can drive them with arbitrary operation sequences. No production code calls these.
+
+const (
+	VerifReservedBuf           = reservedbuf
+	VerifMinReadBufferSize     = minReadBufferSize
+	VerifDefaultReadBufferSize = defaultReadBufferSize
+)
+
+// VerifReadBuffer wraps the unexported readBuffer.
+type VerifReadBuffer struct{ b readBuffer }
+
+func (v *VerifReadBuffer) Reset(r io.Reader, size int)    { v.b.Reset(r, size) }
+func (v *VerifReadBuffer) ReadN(n int) ([]byte, error)    { return v.b.ReadN(n) }
+func (v *VerifReadBuffer) State() (cur, last, buflen int) { return v.b.cur, v.b.last, len(v.b.buf) }
+
+// VerifBits wraps the unexported bits store.
+type VerifBits struct{ b bits }
+
+func VerifMakeBits(value proto.Value) (VerifBits, bool) {
+	b, ok := makeBits(value)
+	return VerifBits{b}, ok
+}
+func (v *VerifBits) Pull(bitsize byte) uint32 { return v.b.Pull(bitsize) }
+func (v *VerifBits) Store() [32]uint64        { return v.b.store }
+func (v *VerifBits) SetStore(s [32]uint64)    { v.b.store = s }
